@@ -85,9 +85,11 @@ def _asp_loop_outer(vc, L):
     Tc = st.T
     yield 'session_is_ours', SBool.of(c.f['_operation_session'] is G(vc, '$session'))
     yield 'own_view_contains_the_committed_index', Forall(lambda k: implies(Tc.has(k), V.same_row(Tc, k)))
-    if a.no_holes is not False:
+    if L.has('known_packed_hashkeys'):
         K = L.known_packed_hashkeys.s
         yield 'known_keys_are_indexed', Forall(lambda k: implies(b_and(SBool.of(a.no_holes), K.has(k)), V.has(k)))
+    T0 = G(vc, '$T0')
+    yield 'committed_index_only_grows', Forall(lambda k: implies(T0.has(k), Tc.same_row(T0, k)))
     yield 'no_lock_held', Forall(lambda i: sel(st.ent, lock_pid(c, i)) == 0, sort='pack')
     yield 'pack_id_is_the_cached_one', b_and(SInt.of(L.pack_int_id) == SInt.of(c.f['_current_pack_id']), SInt.of(L.pack_int_id) >= 0)
     yield 'no_descriptor_leaked', SBool.of(st.fds == G(vc, '$fds0'))
@@ -109,7 +111,7 @@ def _asp_havoc_outer(vc, L):
     vc.assume(L.working_stream_list.n >= 0)
     c.f['_current_pack_id'] = SInt.fresh('cached_pack_id')
     a = G(vc, '$args')
-    if a.no_holes is not False and L.has('known_packed_hashkeys'):
+    if L.has('known_packed_hashkeys'):
         L.known_packed_hashkeys.s = SSet.fresh('known')
     L.hashkeys = MList(None, n=SInt.fresh('nkeys'), elems=SSet.fresh('returned'), on_append=_on_key_returned)
 
@@ -146,14 +148,15 @@ def _asp_loop_inner(vc, L):
     h = c.f['$hash']
 
     yield 'index_and_session_untouched', SBool.of(db.table is st0.T and s is G(vc, '$session') and s.view is W.view and s.dirty == W.dirty)
-    yield 'only_the_locked_pack_changes', SBool.of(w.ent is st0.ent and w.isync is st0.isync and w.next_ino is st0.next_ino and w.dirs is st0.dirs)
+    yield 'only_the_locked_pack_changes', SBool.of(w.ent is st0.ent and w.next_ino is st0.next_ino and w.dirs is st0.dirs)
+    yield 'durability_marks_of_other_files_untouched', SBool(w.isync == z3.Store(st0.isync, W.ino.t, z3.Select(w.isync, W.ino.t)))
     yield 'other_files_untouched', SBool(w.idata == z3.Store(st0.idata, W.ino.t, ph.content().t))
     yield 'pack_handle_open_in_append_mode', SBool.of(isinstance(ph, EM.FileObj) and ph.mode == 'ab' and not ph.closed and ph.ino is W.ino)
     yield 'pack_cursor_at_end', ph.kpos == ph.content().length()
     yield 'flushed_part_only_grows', b_and(ph.content().length() >= len_lock, ph.content().slice(0, len_lock) == W.data_lock)
     yield 'handle_is_the_locked_pack', b_and(sel(st0.ent, pack_pid(c, last)) == W.ino, last >= 0, kind(W.ino) == PACK, packno(W.ino) == last)
     yield 'writing_to_the_chosen_pack', b_and(SInt.of(L.pack_int_id) == last, SInt.of(c.f['_current_pack_id']) == last)
-    if a.no_holes is not False:
+    if L.has('known_packed_hashkeys'):
         K = L.known_packed_hashkeys.s
         yield 'known_keys_are_indexed_or_in_the_batch', Forall(lambda k: implies(b_and(SBool.of(a.no_holes), K.has(k)),
                                                                                   b_or(V.has(k), B.keys.has(k))))
@@ -174,7 +177,10 @@ def _asp_loop_inner(vc, L):
         newest = vc.ghost.get('$newest_key')
         if newest is None:
             return [('any', SBool.of(True))]
-        return [('the_object_just_appended', SStr.of(k) == SStr.of(newest), SStr.of(newest)),
+        old_b = vc.ghost['$batch_before_append']
+        same = SStr.of(k) == SStr.of(newest)
+        return [('the_object_just_appended', b_and(same, b_not(old_b.keys.has(newest))), SStr.of(newest)),
+                ('a_key_appended_again_first_row_wins', b_and(same, old_b.keys.has(newest)), SStr.of(newest)),
                 ('an_earlier_object', SStr.of(k) != SStr.of(newest))]
     yield 'batch_rows_designate_what_was_appended', ForallCases(lambda k: B.keys.has(k), batch_cases, batch_conseq)
     yield 'descriptors', SBool.of([f.num for f in w.open_fds if f is not ph.fdrec] == G(vc, '$fds0'))
@@ -191,7 +197,7 @@ def _asp_havoc_inner(vc, L):
     L.obj_dicts = SQL.batch_list(SQL.RowBatch.fresh('batch'))
     L.obj_dicts.g['batch'].fields = {'hashkey', 'pack_id', 'offset', 'compressed', 'size', 'length'}
     c.f['_current_pack_id'] = SInt.fresh('cached_pack_id')
-    if a.no_holes is not False and L.has('known_packed_hashkeys'):
+    if L.has('known_packed_hashkeys'):
         L.known_packed_hashkeys.s = SSet.fresh('known')
     L.hashkeys = MList(None, n=SInt.fresh('nkeys'), elems=SSet.fresh('returned'), on_append=_on_key_returned)
     w.idata = W.st.idata
@@ -223,7 +229,7 @@ class AddStreamedObjectsToPack(CUnit):
         else:
             # every-change variant: the default parameters except no_holes (both values)
             no_holes, twice, do_commit = vc.fresh_bool('no_holes'), True, True
-        return NS(self=c, stream_list=AbsStreamList(vc), compress=vc.fresh_bool('compress'), open_streams=False,
+        return NS(self=c, stream_list=AbsStreamList(vc), compress=(vc.choose(2, label='compress') == 1), open_streams=False,
                   no_holes=no_holes, no_holes_read_twice=twice, callback=None, do_fsync=vc.fresh_bool('do_fsync'),
                   do_commit=do_commit)
 
